@@ -28,6 +28,7 @@ var (
 	flagTrace   = flag.Bool("psim.trace", false, "print schedule trace")
 	flagShrink  = flag.Duration("psim.shrink", 45*time.Second, "shrink budget per violation")
 	flagMaxViol = flag.Int("psim.maxviol", 3, "stop after this many violating cases")
+	flagKnown   = flag.String("psim.known", "", "comma separated PROPERTY/oracle pairs listed as known findings")
 )
 
 // InBubble runs f inside a fresh synctest bubble and survives the end-of-bubble
@@ -260,6 +261,7 @@ type workerSummary struct {
 	Samples   []interface{}   `json:"samples"`
 	Violating []string        `json:"violating"`
 	Observations []string     `json:"observations"`
+	KnownSeen map[string]int  `json:"known_seen"`
 	Seeds     []uint64        `json:"seeds"`
 	Notes     map[string]int  `json:"notes"`
 	Other     map[string]int  `json:"other_property_findings"`
@@ -320,6 +322,13 @@ func workerRun(t *testing.T) {
 		Notes: map[string]int{}, Other: map[string]int{}}
 	shapes, scheds, nontriv := map[string]bool{}, map[string]bool{}, map[string]bool{}
 	nviol := 0
+	known := map[string]bool{}
+	for _, k := range strings.Split(*flagKnown, ",") {
+		if k != "" {
+			known[k] = true
+		}
+	}
+	knownSeen := map[string]int{}
 	for i := 0; i < *flagN; i++ {
 		if time.Since(start) > *flagBudget {
 			break
@@ -352,6 +361,12 @@ func workerRun(t *testing.T) {
 		}
 		var own *Violation
 		for k, v := range res.Violations {
+			if known[v.Property+"/"+v.Oracle] {
+				knownSeen[v.Property+"/"+v.Oracle]++
+				if knownSeen[v.Property+"/"+v.Oracle] > 1 {
+					continue // one replay file per known finding and worker is enough
+				}
+			}
 			if v.Property == *flagProfile || v.Property == "SIM" || (v.Property == "OBS" && own == nil && len(sum.Observations) < 2) {
 				if own == nil {
 					own = &res.Violations[k]
@@ -361,7 +376,7 @@ func workerRun(t *testing.T) {
 			}
 		}
 		if own != nil {
-			if own.Property != "OBS" {
+			if own.Property != "OBS" && !known[own.Property+"/"+own.Oracle] {
 				nviol++
 			}
 			rf := &ReplayFile{Profile: *flagProfile, Tier: *flagTier, Seed: seed,
@@ -412,6 +427,7 @@ func workerRun(t *testing.T) {
 	sort.Strings(sum.Scheds)
 	sort.Strings(sum.Nontriv)
 	sum.WallS = time.Since(start).Seconds()
+	sum.KnownSeen = knownSeen
 	emit(sum)
 }
 
